@@ -83,12 +83,16 @@ def run(chk):
         subs = {'': False, 'A': dict(A=True, pos=True), 'AB': dict(A=True, B=True, pid=True)}[abk]
         req = list(c['req'])
         # vary the container type of the request
-        fields = req[0] if (len(req) == 1 and ci % 2) else (tuple(req) if ci % 3 == 0 else req)
+        fields = req[0] if (len(req) == 1 and ci % 2) else (tuple(req) if ci % 3 == 0 else list(req))
         desc = f'fields={req} cleaned={c["cleaned"]} subsamples={subs}'
         payload = dict(req=req, cleaned=c['cleaned'], ABs=c['ABs'])
         tag = f'{"cleaned" if c["cleaned"] else "uncleaned"}-{abk or "nosub"}'
+        fields_before = list(fields) if isinstance(fields, list) else None
         try:
             cobj = cc.load(zd, cleaned=c['cleaned'], fields=fields, subsamples=(dict(subs) if subs else False))
+            if fields_before is not None and list(fields) != fields_before:
+                chk.violation(f'request-list-mutated-{tag}', f'{desc}: the caller\'s field list was modified in place to {list(fields)} (a later load with the same list would request different columns)', payload)
+                req = list(fields_before)
         except Exception as e:  # noqa
             chk.violation(f'raises-{tag}-{type(e).__name__}-{"deriv" if any("Mid" in r for r in req) else "plain"}', f'{desc}: {type(e).__name__}: {e}', payload)
             continue
